@@ -94,17 +94,21 @@ def Store.setSlot (st : Store) (a : Addr) (k : Key) (v : Val) : Store :=
 def Store.delSlot (st : Store) (a : Addr) (k : Key) : Store :=
   { st with stor := aerase st.stor (a, k) }
 
-/-- `contractStore.Set(KeyPrefixCode, h, code)`: the store stack treats a value equal to the
-    TOMBSTONE marker as a delete (storage/state.go, KF-C09-1) -/
+/-- `contractStore.Set(KeyPrefixCode, h, code)` when the store accepts the value.  `State.Set`
+    refuses a value equal to the TOMBSTONE marker (b55dd24, `ErrReservedValue`); `commitCode`
+    returns that error and `Finalise` stops with it (078c4d3, see `Impl.finalise`). -/
 def Store.setCode (c : Cfg) (st : Store) (h code : Code) : Store :=
-  if code = c.tomb then { st with code := aerase st.code h } else { st with code := upsert st.code h code }
+  if code = c.tomb then st else { st with code := upsert st.code h code }
 
 /-- `NesterAccountKeeper.SetAccount`: the keeper record and the balance record -/
 def Store.setAccount (st : Store) (o : Obj) : Store :=
   { st with acct := upsert st.acct o.addr (o.nonce, o.codeHash), bal := upsert st.bal o.addr o.bal }
 
-/-- `NesterAccountKeeper.RemoveAccount`: deletes `keeper_<a>` only (S8) -/
-def Store.removeAccount (st : Store) (a : Addr) : Store := { st with acct := aerase st.acct a }
+/-- `NesterAccountKeeper.RemoveAccount` (da864f3, c90a103): deletes `keeper_<a>` and, when the
+    balance record is not zero, writes a zero amount: a removed account is gone with whatever it
+    holds.  Storage and code records stay (S8, KF-C16-2). -/
+def Store.removeAccount (st : Store) (a : Addr) : Store :=
+  { st with acct := aerase st.acct a, bal := if st.balOf a = 0 then st.bal else upsert st.bal a 0 }
 
 /-- `NesterAccountKeeper.GetAccount` + `newStateObject`: the keeper record with the balance record
     attached; without a keeper record, `legacyFix` makes an account of any non-zero balance -/
@@ -182,67 +186,47 @@ def Entry.dirtied : Entry → Option Addr
   | .alAddr _ => none
   | .alSlot _ _ => none
 
-/-- `journal`: entries, the `dirties` slice and `addressToJournalIndex` -/
+/-- `journal`: the entries and the dirty counters.  `dirties` (a slice of {address, changes}) and
+    `addressToJournalIndex` are kept consistent by the code (append on first use; `deleteDirty`
+    removes the element and re-indexes the ones behind it, f45414e): an association list in
+    first-use order, like `stateObjects` + `addressToObjectIndex`. -/
 structure Journal where
   entries : List Entry            -- oldest first
-  dirties : List (Addr × Nat)     -- {address, changes}
-  index : List (Addr × Nat)       -- address ↦ position in `dirties`
+  dirties : List (Addr × Nat)     -- address ↦ changes
   deriving Repr, DecidableEq
 
-def Journal.new : Journal := { entries := [], dirties := [], index := [] }
-
-/-- `journal.addDirty` (`none` = index out of range) -/
-def Journal.addDirty (j : Journal) (a : Addr) : Option Journal :=
-  match alookup a j.index with
-  | none => some { j with dirties := j.dirties ++ [(a, 1)], index := upsert j.index a j.dirties.length }
-  | some i =>
-    match j.dirties[i]? with
-    | none => none
-    | some (b, n) => some { j with dirties := j.dirties.set i (b, n + 1) }
-
-/-- `journal.substractDirty` -/
-def Journal.subDirty (j : Journal) (a : Addr) : Option Journal :=
-  match alookup a j.index with
-  | none => some j
-  | some i =>
-    match j.dirties[i]? with
-    | none => none
-    | some (b, n) => if n = 0 then some j else some { j with dirties := j.dirties.set i (b, n - 1) }
+def Journal.new : Journal := { entries := [], dirties := [] }
 
 /-- `journal.getDirty` -/
-def Journal.getDirty (j : Journal) (a : Addr) : Option Nat :=
-  match alookup a j.index with
-  | none => some 0
-  | some i => (j.dirties[i]?).map (·.2)
+def Journal.getDirty (j : Journal) (a : Addr) : Nat := (alookup a j.dirties).getD 0
 
-/-- `journal.deleteDirty`: removes the slice element and the map entry; the positions recorded for
-    the elements behind it are NOT updated -/
-def Journal.deleteDirty (j : Journal) (a : Addr) : Option Journal :=
-  match alookup a j.index with
-  | none => some j
-  | some i =>
-    if i < j.dirties.length then some { j with dirties := j.dirties.eraseIdx i, index := aerase j.index a }
-    else none
+/-- `journal.addDirty` -/
+def Journal.addDirty (j : Journal) (a : Addr) : Journal :=
+  { j with dirties := upsert j.dirties a (j.getDirty a + 1) }
+
+/-- `journal.substractDirty` -/
+def Journal.subDirty (j : Journal) (a : Addr) : Journal :=
+  match alookup a j.dirties with
+  | none => j
+  | some n => if n = 0 then j else { j with dirties := upsert j.dirties a (n - 1) }
+
+/-- `journal.deleteDirty` -/
+def Journal.deleteDirty (j : Journal) (a : Addr) : Journal := { j with dirties := aerase j.dirties a }
 
 /-- `journal.append` -/
-def Journal.append (j : Journal) (e : Entry) : Option Journal :=
+def Journal.append (j : Journal) (e : Entry) : Journal :=
   let j1 := { j with entries := j.entries ++ [e] }
   match e.dirtied with
-  | none => some j1
+  | none => j1
   | some a => j1.addDirty a
 
 /-- the dirty bookkeeping of one step of `journal.revert` -/
-def Journal.undirty (j : Journal) (e : Entry) : Option Journal :=
+def Journal.undirty (j : Journal) (e : Entry) : Journal :=
   match e.dirtied with
-  | none => some j
+  | none => j
   | some a =>
-    match j.subDirty a with
-    | none => none
-    | some j1 =>
-      match j1.getDirty a with
-      | none => none
-      | some 0 => j1.deleteDirty a
-      | some _ => some j1
+    let j1 := j.subDirty a
+    if j1.getDirty a = 0 then j1.deleteDirty a else j1
 
 /-! ## the adapter -/
 
@@ -292,7 +276,7 @@ def Impl.getObj (s : Impl) (a : Addr) : Impl × Option Obj :=
 def Impl.setObj (s : Impl) (o : Obj) : Impl := { s with objs := upsert s.objs o.addr o }
 
 def Impl.jappend (s : Impl) (e : Entry) : Option Impl :=
-  (s.journal.append e).map fun j => { s with journal := j }
+  some { s with journal := s.journal.append e }
 
 /-- `createObject`: the new account starts from the *balance record* of the address
     (`NewAccountWithAddress`) -/
@@ -326,7 +310,7 @@ def Impl.touch (c : Cfg) (s : Impl) (a : Addr) : Option Impl :=
   match s.jappend (.touch a) with
   | none => none
   | some s1 =>
-    if a = c.ripemd then (s1.journal.addDirty a).map fun j => { s1 with journal := j } else some s1
+    if a = c.ripemd then some { s1 with journal := s1.journal.addDirty a } else some s1
 
 /-- `AddBalance` -/
 def Impl.addBalance (c : Cfg) (s : Impl) (a : Addr) (n : Nat) : Option Impl :=
@@ -402,21 +386,19 @@ def Impl.alAddSlot (s : Impl) (a : Addr) (k : Key) : Option Impl :=
 
 /-! ### reverting -/
 
-/-- `journalEntry.revert` for every entry kind.  `balanceChange.revert` and `suicideChange.revert`
-    go through the *journaled* `SetBalance`: the entry they append lies behind the loop index and is
-    cut off at the end of `journal.revert`, but its `addDirty` stays. -/
+/-- `journalEntry.revert` for every entry kind (`balanceChange.revert` and `suicideChange.revert`
+    use the non-journaling `setBalance` since d411c44) -/
 def Impl.revertEntry (s : Impl) : Entry → Option Impl
   | .createObject a => some { s with objs := aerase s.objs a }
   | .resetObject prev => some (s.setObj prev)
   | .suicide a prev prevBal =>
     match s.getObj a with
     | (s1, none) => some s1
-    | (s1, some o) =>
-      (s1.journal.addDirty a).map fun j => ({ s1 with journal := j } : Impl).setObj { o with suicided := prev, bal := prevBal }
+    | (s1, some o) => some (s1.setObj { o with suicided := prev, bal := prevBal })
   | .balance a prev =>
     match s.getObj a with
     | (_, none) => none                        -- nil dereference
-    | (s1, some o) => (s1.journal.addDirty a).map fun j => ({ s1 with journal := j } : Impl).setObj { o with bal := prev }
+    | (s1, some o) => some (s1.setObj { o with bal := prev })
   | .nonce a prev =>
     match s.getObj a with
     | (_, none) => none
@@ -448,10 +430,7 @@ def Impl.undoLast (s : Impl) : Option Impl :=
   | some e =>
     match s.revertEntry e with
     | none => none
-    | some s1 =>
-      match s1.journal.undirty e with
-      | none => none
-      | some j => some { s1 with journal := { j with entries := s.journal.entries.dropLast } }
+    | some s1 => some { s1 with journal := { s1.journal.undirty e with entries := s.journal.entries.dropLast } }
 
 /-- `journal.revert(statedb, snapshot)` -/
 def Impl.revertTo (s : Impl) (snapshot : Nat) : Nat → Option Impl
@@ -484,19 +463,31 @@ def Impl.snapshot (s : Impl) : Impl × Nat :=
 def finaliseObj (c : Cfg) (deleteEmpty : Bool) (dirtySet : List Addr) (st : Store) (ao : Addr × Obj) : Store :=
   let o := ao.2
   let isDirty := decide (ao.1 ∈ dirtySet)
-  if o.suicided || (isDirty && deleteEmpty && o.empty) then st.removeAccount o.addr   -- deleteStateObject
+  if o.suicided || (isDirty && deleteEmpty && o.empty) then st.removeAccount o.addr     -- deleteStateObject
   else if isDirty then
     let st1 := o.commitState st
     let st2 := if o.code ≠ 0 && o.dirtyCode then st1.setCode c o.codeHash o.code else st1
     st2.setAccount o                                                                   -- updateStateObject
   else st
 
-/-- `Finalise(deleteEmptyObjects)`; the deferred function clears the object cache, the journal,
-    the refund and the revisions (not the revision counter, the logs or the access list) -/
-def Impl.finalise (c : Cfg) (s : Impl) (deleteEmpty : Bool) : Impl :=
+/-- `commitCode` of this object fails: it is written out and its code is the marker the store refuses -/
+def commitFails (c : Cfg) (deleteEmpty : Bool) (dirtySet : List Addr) (ao : Addr × Obj) : Bool :=
+  let isDirty := decide (ao.1 ∈ dirtySet)
+  !(ao.2.suicided || (isDirty && deleteEmpty && ao.2.empty)) && isDirty &&
+    (ao.2.code != 0 && ao.2.dirtyCode && ao.2.code == c.tomb)
+
+/-- `Finalise(deleteEmptyObjects)` and whether it returned an error.  The loop stops at the first
+    object whose `commitCode` fails (its storage has been written by then, its account has not);
+    the deferred function clears the object cache, the journal, the refund and the revisions in
+    either case (not the revision counter, the logs or the access list). -/
+def Impl.finalise (c : Cfg) (s : Impl) (deleteEmpty : Bool) : Impl × Bool :=
   let dirtySet := (s.journal.dirties.map (·.1)).filter (fun a => (alookup a s.objs).isSome)
-  let st := s.objs.foldl (finaliseObj c deleteEmpty dirtySet) s.store
-  { s with store := st, objs := [], journal := Journal.new, refund := 0, revisions := [] }
+  let done := s.objs.takeWhile (fun ao => !commitFails c deleteEmpty dirtySet ao)
+  let st := done.foldl (finaliseObj c deleteEmpty dirtySet) s.store
+  match s.objs.find? (commitFails c deleteEmpty dirtySet) with
+  | none => ({ s with store := st, objs := [], journal := Journal.new, refund := 0, revisions := [] }, false)
+  | some ao =>
+    ({ s with store := ao.2.commitState st, objs := [], journal := Journal.new, refund := 0, revisions := [] }, true)
 
 /-- `Reset` -/
 def Impl.reset (s : Impl) : Impl := Impl.init s.store
@@ -600,7 +591,7 @@ def Impl.step (c : Cfg) (s : Impl) : Op → Impl × Out
   | .getLogs => (s, .logs ((alookup s.thash s.logs).getD []))
   | .snapshot => let (s1, id) := s.snapshot; (s1, .nat id)
   | .revertToSnapshot id => orPanic s (s.revertToSnapshot id)
-  | .finalise b => (s.finalise c b, .unit)
+  | .finalise b => let (s1, failed) := s.finalise c b; (s1, if failed then .panic else .unit)   -- an error return prints as `panic`
   | .reset => (s.reset, .unit)
 
 /-- outputs of a call sequence; a panic ends it -/
@@ -613,20 +604,20 @@ def Impl.run (c : Cfg) (s : Impl) : List Op → List Out
 /-! ### guards: the conditions under which the adapter is claimed to agree with the reference
 
   Each condition is a decidable predicate on the adapter's own state; the driver evaluates them on
-  every line of every correspondence run.  They name exactly the mechanisms the monitor confirmed
-  on the implementation (Props/C16.lean proves a counterexample for each):
-    S8            `Finalise` deletes an account whose balance or storage records are not empty,
-                  or `CreateAccount` runs over a live account that has storage records;
-    dirties       an account with a live journal entry is missing from the `dirties` slice
-                  (`deleteDirty` does not re-index), or a journal operation panics;
-    tombstone     a contract code equal to the TOMBSTONE marker is written out;
-    empties       `Finalise(false)` (empty accounts stay in the records and are later deleted by
-                  a reverted balance change);
+  every line of every correspondence run:
+    S8 storage    `Finalise` deletes an account whose storage records are not empty, or
+                  `CreateAccount` runs over a live account that has storage records (KF-C16-2, the
+                  one mechanism left on which adapter and reference answer differently);
+    marker code   a contract code equal to the store's deletion marker (3 bytes e2 9b bc) is written
+                  out: the store refuses it and `Finalise` fails the transaction, which the
+                  reference semantics has no counterpart for (a documented exclusion, not a silent
+                  divergence);
+    empties       `Finalise(false)` (empty accounts would stay in the records);
   plus two modelling restrictions: the RIPEMD touch exception is left to the correspondence run,
-  `Prepare` / `Reset` are taken at transaction boundaries (empty journal);
-  plus two well-formedness conditions checked rather than proved invariant: every dirty slot has
-  its origin cached at `Finalise` (`commitState` skips the others), and no access-list slot is
-  listed without its address. -/
+  `Prepare` / `Reset` are taken at transaction boundaries (empty journal).
+  Nothing else: that no journal operation fails, that `Finalise` sees every account with a live
+  journal entry as dirty, and that every dirty slot has its original value cached when
+  `commitState` runs (it skips the others) are proved invariants (Lemmas.lean `JOK`, `JCnt`, `OOK`). -/
 
 /-- all storage records of the address are zero -/
 def Store.storClean (st : Store) (a : Addr) : Bool := st.stor.all fun x => x.1.1 != a || x.2 == 0
@@ -656,31 +647,24 @@ def Impl.balAt (s : Impl) (a : Addr) : Nat :=
 def Impl.dirtySet (s : Impl) : List Addr :=
   (s.journal.dirties.map (·.1)).filter (fun a => (alookup a s.objs).isSome)
 
-/-- every account with a live journal entry is in the `dirties` slice -/
-def Impl.dirtCover (s : Impl) : Bool :=
-  (s.journal.entries.filterMap Entry.dirtied).all fun a => decide (a ∈ s.journal.dirties.map (·.1))
-
-/-- every dirty slot has its original value cached (`commitState` skips the others) -/
+/-- every dirty slot has its original value cached (`commitState` skips the others); an invariant, see `OOK` -/
 def Obj.dirtyHasOrigin (o : Obj) : Bool := o.dirty.all fun kv => (alookup kv.1 o.origin).isSome
 
 /-- what `Finalise(true)` must not meet -/
 def Impl.finaliseGuard (c : Cfg) (s : Impl) : Bool :=
-  s.dirtCover && s.objs.all fun ao =>
-    ao.2.dirtyHasOrigin &&
+  s.objs.all fun ao =>
     !(ao.2.code != 0 && ao.2.dirtyCode && ao.2.code == c.tomb) &&
-    (!(ao.2.suicided || (decide (ao.1 ∈ s.dirtySet) && ao.2.empty)) ||
-      (s.store.balOf ao.1 == 0 && s.store.storClean ao.1))
+    (!(ao.2.suicided || (decide (ao.1 ∈ s.dirtySet) && ao.2.empty)) || s.store.storClean ao.1)
 
 def Impl.guard (c : Cfg) (s : Impl) : Op → Bool
   | .createAccount a => !s.liveAt a || s.store.storClean a
   | .addBalance a n => !(n == 0 && a == c.ripemd)
-  | .addSlotToAccessList a k => decide (a ∈ s.alAddrs) || decide ((a, k) ∉ s.alSlots)   -- no slot without its address
   | .prepare _ => s.journal.entries.isEmpty && s.revisions.isEmpty
   | .reset => s.journal.entries.isEmpty
   | .finalise b => b && s.finaliseGuard c
   | _ => true
 
-/-- the panics the reference semantics shares -/
+/-- the only panics of the adapter (Props/C16.lean `panics_are_shared`): the ones the reference shares -/
 def Impl.legitPanic (s : Impl) : Op → Bool
   | .subRefund n => decide (n > s.refund)
   | .subBalance a n => decide (n > s.balAt a)
@@ -690,8 +674,7 @@ def Impl.legitPanic (s : Impl) : Op → Bool
     | none => true
   | _ => false
 
-def Impl.safeStep (c : Cfg) (s : Impl) (op : Op) : Bool :=
-  s.guard c op && ((s.step c op).2 != .panic || s.legitPanic op)
+def Impl.safeStep (c : Cfg) (s : Impl) (op : Op) : Bool := s.guard c op
 
 /-- the guards hold at every step of the run -/
 def Impl.safeRun (c : Cfg) : Impl → List Op → Bool
